@@ -2,7 +2,28 @@
 HOOK_COMMITS = []
 NOT_YET = {}
 _G = "TLA+ grammar/contract + impl-shaped parser model checked by TLC; TLC-printed files concretised and run through the real loaders; observations judged by the contract operator in a TLA+ trace spec"
+_L = "TLA+ models of the reader stack (ReaderStack.tla: tee/bufio/parser programs; AutoChain.tla: chain of three loaders with explicit byte identities) model-checked by TLC over all delivery schedules; real loaders driven through an instrumented source, observations judged by LoadContract.tla in a TLA+ trace spec"
 CHECKS = {
+    "C07": {
+        "text": "TLC proves, for every source of <= 9 bytes, every truncation, both terminal conditions, every delivery schedule (incl. data+EOF) and every parser program of <= 3 requests over 7 request kinds, that the rewind buffer equals what the source delivered (ReplayComplete) and, for the chain of three loaders with explicit byte identities, that every loader sees the input from byte 1 and the returned stream is the whole input (ReplayWhole); mutant wirings (tee above bufio, next loader handed the original reader) are rejected by the same invariants. The real loaders are then run on ~39k (input, cut, fault, schedule) combinations (repo images, TLC-generated container files, junk/polyglots; every prefix <= 48 bytes, strided to 8 KiB, structural boundaries +-1; EOF and sticky I/O error) and each drained stream is judged by ReplayOK.",
+        "ref": "DESIGN.md 5/C07", "technique": _L,
+        "note": "Model bounds small (BUF=3/4 vs 4096): scaling argued in DESIGN 3.3 and exercised by cuts/schedules at the real 4096/8192 boundaries. Sources returning (0,nil) are outside the model.",
+    },
+    "C08": {
+        "text": "TLC proves on ReaderStack (repaired design) that failure occurs only when the data really is insufficient and success consumes exactly what was requested, for all delivery schedules; the as-found design (single Read) yields the 2-step counterexample, and AutoChain shows the same through MultiReader boundaries. The real loaders and the ICC reader (behind bufio readers of 7 sizes) are run on every corpus input under full delivery and under fixed sizes 1,2,3,7,8,4095,4096,4097, data+EOF, seeded random sizes, compositions of the first 12 bytes (also laid across offset 4090) and single cuts; TLC requires all outcomes per input to be equal (ScheduleIndependent).",
+        "ref": "DESIGN.md 5/C08", "technique": _L,
+        "note": "Schedules are sampled beyond the first 12 bytes (all 2^11 compositions only in thorough); outcome = success/error + format/dims/depth + ICC length and hash.",
+    },
+    "C18": {
+        "text": "TLC proves pulled <= Need + BUF for one loader and for the chain of three under all schedules (ReadAheadBounded, ChainReadAhead). Real loaders are run on well-formed generated files with 1 MiB and 64 MiB virtual pixel bodies (and on the same files truncated just after the needed point) under 4 segmentations; TLC judges pulled <= Needed(layout) + 64 KiB and equality of the truncated reload (NoOverRead).",
+        "ref": "DESIGN.md 5/C18", "technique": _L,
+        "note": "Needed() is deliberately generous (end of header structure / last ICC structure / structure announcing pixel data) so that no property-respecting implementation is rejected.",
+    },
+    "C19": {
+        "text": "TLC proves on AutoChain that each candidate loader sees the stream from its first byte and that the format's own loader fails only for lack of data (AutoJustified/AutoExact), rejecting the design in which the next loader is handed the original reader. On the real code the four loaders are run on identical bytes (corpus x cuts, two segmentations, polyglots whose first bytes satisfy another format) and TLC requires auto = first succeeding specific loader, no metadata exactly on failure, and a complete replay (AutoEquivalent).",
+        "ref": "DESIGN.md 5/C19", "technique": _L,
+        "note": "Outcome equality is on format/dims/depth/ICC length+hash/ICC-error presence.",
+    },
     "C05": {
         "text": "TLC checks the chunk-level parser models of PNG/JPEG/WebP against the grammar-level contract for every file of a bounded grammar (all 15 PNG modes, interlace, ancillary material before/after, JPEG SOF kinds/precisions/component counts with every placement among ICC and other segments, VP8/VP8L/VP8X with scale bits and flags); every such file is concretised into real bytes (validated against the std decoders' DecodeConfig) and loaded by the format loader and autometa; every observation is accepted or rejected by TLC with the same Allowed operator. Dimension fields are additionally swept over bit patterns (exhaustively for 14- and 16-bit fields in thorough).",
         "ref": "DESIGN.md 5/C05", "technique": _G,
